@@ -39,6 +39,8 @@ type Session struct {
 	unmarshal       func([]byte, interface{}) error
 	lastActs        int
 	lastHsync       string
+	inMemTree       map[int]bool
+	lastDLS         string
 	byContent       map[string]string // decoded node -> bytes it was written as
 	lastCwalk       string
 	ctx             context.Context
@@ -46,7 +48,7 @@ type Session struct {
 
 func NewSession(cfg Cfg) *Session {
 	s := &Session{Cfg: cfg, Store: NewRecStore("rec0"), Trees: map[int]*mast.Mast{}, Roots: map[int]*mast.Root{},
-		Oracle: map[int]map[uint64]uint64{}, ROracle: map[int]map[uint64]uint64{}, Cursors: map[int]*mast.Cursor{}, canonSeen: map[string]string{}, curs: map[int]*curState{}, bases: map[int]*baseInfo{}, written: map[string]string{}, byContent: map[string]string{},
+		Oracle: map[int]map[uint64]uint64{}, ROracle: map[int]map[uint64]uint64{}, Cursors: map[int]*mast.Cursor{}, canonSeen: map[string]string{}, curs: map[int]*curState{}, bases: map[int]*baseInfo{}, written: map[string]string{}, byContent: map[string]string{}, inMemTree: map[int]bool{},
 		ctx: context.Background()}
 	switch cfg.Cache {
 	case "big":
@@ -213,6 +215,10 @@ func (s *Session) Exec(line string) (obs string, viol string) {
 		return "ok", s.vcheck()
 	case "difflinks":
 		return s.execDiffLinks(int(num(1)), int(num(2)))
+	case "difflinksstop", "difflinkserr":
+		o, v := s.execDiffLinksStop(int(num(1)), int(num(2)), int(num(3)), t[0] == "difflinkserr")
+		s.lastDLS = o
+		return o, v
 	case "flush":
 		o, v := s.execFlush(int(num(1)), int(num(2)), int64(num(3)), parseFails(t[4]))
 		if s.lastMaxInflight > lastSessionMaxInflight {
@@ -291,7 +297,7 @@ func (s *Session) Exec(line string) (obs string, viol string) {
 			var v uint64
 			found, err = m.Get(s.ctx, s.Cfg.Key(k), &v)
 			got = v
-		case "bytes":
+		case "bytes", "nb":
 			var v []byte
 			found, err = m.Get(s.ctx, s.Cfg.Key(k), &v)
 			if found && err == nil {
@@ -445,6 +451,7 @@ func (s *Session) Exec(line string) (obs string, viol string) {
 		// NewInMemory(): branch factor 16, no store (the configuration's key kind must be one the
 		// default comparison and layer know)
 		m := mast.NewInMemory()
+		s.inMemTree[int(num(1))] = true
 		s.Trees[int(num(1))] = &m
 		s.Oracle[int(num(1))] = map[uint64]uint64{}
 		delete(s.bases, int(num(1)))
@@ -498,6 +505,13 @@ func (s *Session) Exec(line string) (obs string, viol string) {
 			return errClass(err), "MakeRoot failed on a healthy store: " + err.Error()
 		}
 		// the root record travels through JSON, as an application would keep it
+		// C05: the root records the tree's own node format and branch factor
+		if r.NodeFormat != s.Cfg.NodeFormat() {
+			viol = fmt.Sprintf("MakeRoot of a %q tree returned a root that says node format %q", s.Cfg.NodeFormat(), r.NodeFormat)
+		}
+		if r.BranchFactor != s.Cfg.BF && s.Trees[int(num(1))] != nil && !s.inMemTree[int(num(1))] {
+			viol = fmt.Sprintf("MakeRoot of a tree with branch factor %d returned a root that says %d", s.Cfg.BF, r.BranchFactor)
+		}
 		js, err := json.Marshal(r)
 		if err != nil {
 			return "err rootjson", "root does not marshal: " + err.Error()
@@ -624,6 +638,9 @@ func (s *Session) ModelLine(line string) string {
 	}
 	if t[0] == "cwalk" {
 		return "echo " + s.lastCwalk
+	}
+	if t[0] == "difflinksstop" || t[0] == "difflinkserr" {
+		return "echo " + s.lastDLS
 	}
 	if t[0] == "newmem" {
 		return "new " + t[1]
